@@ -150,6 +150,25 @@ let handle (p : string) : string =
             if close then for i = n downto 1 do Buffer.add_string b (if (i - 1) land 1 = 1 then "}" else "]") done);
     let r = parse_result (bytes_of_string (Buffer.contents b)) false in
     r ^ "-deep" ^ (if n > int_of_n mAX_DEPTH then "-over" else if n = int_of_n mAX_DEPTH then "-at" else "-under")
+  | ["nest"; _; outer; inner] ->
+    let res r = match r with
+      | POk (v, _) -> "ok:" ^ show v
+      | PErr e -> "err:" ^ hex_of_string (string_of_bytes (lexer_error_text e))
+      | PFuel -> "FUEL" | PDeep -> "DEEP" in
+    let ro = parse_text (s_of_hex outer) and ri = parse_text (s_of_hex inner) in
+    "outer=" ^ res ro ^ ";inner=" ^ res ri ^ ";innerok=1;class=nest:" ^
+    (match ro with POk _ -> "outer-ok" | _ -> "outer-err") ^ (match ri with POk _ -> "-inner-ok" | _ -> "-inner-err")
+  | ["thr"; ts] ->
+    let texts = List.map s_of_hex (String.split_on_char ',' ts) in
+    let b = Buffer.create 256 in
+    List.iteri (fun i r ->
+      Buffer.add_string b (Printf.sprintf "p%d=%s;" i
+        (match r with
+         | POk (v, _) -> "ok:" ^ show v
+         | PErr e -> "err:" ^ hex_of_string (string_of_bytes (lexer_error_text e))
+         | PFuel -> "FUEL" | PDeep -> "DEEP"))) (parse_seq texts);
+    Buffer.add_string b (Printf.sprintf "mt=1;class=thr:%dthreads" (List.length texts));
+    Buffer.contents b
   | ["ev"; es] ->
     let ev_of (e : string) : hevent =
       let r = String.sub e 1 (String.length e - 1) in
